@@ -1,6 +1,6 @@
 (* Correspondence cases for C10: one constructor per matcher; every case carries the input and
    the OBSERVED implementation output, [agree10] recomputes the output with the model. *)
-From KV Require Export Res.Image Res.Selector Res.Replica Res.Replacement.
+From KV Require Export Res.Image Res.Selector Res.Replica Res.Replacement Base.RegexParse.
 From KV Require Import Corr.C14.   (* oclass_eqb, mism_from *)
 
 Definition cs_of (l : list gvk) : gvk -> bool := fun g => existsb (gvk_eqb g) l.
@@ -81,7 +81,16 @@ Definition agree10 (c : case10) : bool :=
   | KRegex r s obs => Bool.eqb (matches r s) obs
   | KImgAst t r =>
       match r with
-      | Some r' => re_eqb (norm r') (norm (img_re t))
+      | Some r' =>
+          re_eqb (norm r') (norm (img_re t)) &&
+          (* the Gallina parser reads the same pattern text as Go's regexp/syntax did *)
+          match img_pattern t with
+          | Some p => match re_parse p with
+                      | Some r0 => re_eqb (norm r0) (norm r')
+                      | None => negb (ascii_text t)
+                      end
+          | None => false
+          end
       | None => false      (* a quoted name always compiles *)
       end
   | KImageVal tab im doc cls after =>
